@@ -11,7 +11,7 @@ RULE = ("Hypothesis-generated cover-labelled networks (5..10 vertices quick / ..
         "cycles 3..5, chorded cycles incl. diamond and house, pairwise sharing at most one vertex, vertices in no motif "
         "allowed, relabelled ids) x iteration counts (0..40) x query histories of phi (0, 1 and generated) on one "
         "object. Oracle: independent reference solver (own membership tables, brute-force motif expectation, Jacobi "
-        "sweeps from 0.5 to 1e-14) compared within 1e-6 where it converged within iterations/4 sweeps; bounds [0,1]; "
+        "sweeps from 0.5 until the sup-change is below 1e-10) compared within 1e-6 where it converged within iterations/4 sweeps; bounds [0,1]; "
         "S(0)=0; monotone in phi at every iteration count; every answer equals a fresh object's answer. Non-trivial = "
         "motif hypergraph has a cycle, >= 2 motif kinds, some queried phi with 0.01 < S < 0.99; distinct = canonical JSON")
 ASSUMPTIONS = ["fixed-point comparison only where the reference iteration converges fast (the statement's 'away from "
@@ -70,6 +70,7 @@ def network(draw, tier):
             # edges enter the graph motif by motif, or interleaved (a cover labelled onto an existing graph);
             # motif ids are arbitrary integers
             "edge_order": draw(st.sampled_from(["by_motif", "round_robin", "reversed"])),
+            "label_rot": draw(st.sampled_from([0, 0, 1, 2, 3])),
             "id_base": draw(st.sampled_from([0, 0, 250, 1000])), "id_step": draw(st.sampled_from([1, 1, 7]))}
 
 
@@ -87,6 +88,9 @@ def enumerated(tier, seed):
     nets = [
         (11, [["clique3", t] for t in fano] + [["clique2", [0, 7]], ["clique2", [7, 8]], ["clique2", [8, 9]]]),
         (9, [["clique3", t] for t in ag] + [["cycle4", [2, 5, 8, 3]]]),
+        # a 4-cycle whose vertices sit in different surroundings (non-uniform messages round the cycle)
+        (18, [["clique3", t] for t in fano] + [["clique3", [7 + a for a in t]] for t in fano] +
+             [["cycle4", [0, 14, 7, 15]], ["clique3", [14, 16, 17]]]),
     ]
     out = []
     for n, motifs in nets:
@@ -95,7 +99,7 @@ def enumerated(tier, seed):
                 for rel in (False, "big"):
                     out.append({"n": n, "motifs": motifs, "relabel": rel, "phis": [0.9, 1.0] if tier == "quick" else [0.9, 0.7, 1.0, 0.0],
                                 "iterations": 32 if tier == "quick" else 48,
-                                "edge_order": order, "id_base": base, "id_step": step})
+                                "edge_order": order, "id_base": base, "id_step": step, "label_rot": 1 + (base // 250 + len(out)) % 3})
     if tier == "thorough":
         return out
     # quick: both networks x {round_robin, reversed} x two id schemes, alternating label schemes
@@ -118,7 +122,14 @@ def build(case):
         nodes = [lab(v) for v in vs]
         edges = [(nodes[a], nodes[b]) for a, b in es]
         uid = case.get("id_base", 0) + case.get("id_step", 1) * mid
-        label = f"{k}-{nodes}-{edges}-{uid}"
+        lnodes = list(nodes)
+        if case.get("label_rot"):
+            # the vertex list of a label is a set of members: any order (not necessarily a walk round a cycle)
+            r = case["label_rot"] % len(lnodes)
+            lnodes = lnodes[r:] + lnodes[:r]
+            if len(lnodes) >= 4:
+                lnodes[1], lnodes[2] = lnodes[2], lnodes[1]
+        label = f"{k}-{lnodes}-{edges}-{uid}"
         rows.append([(u, v, label) for u, v in edges])
         mlist.append((nodes, edges))
     order = case.get("edge_order", "by_motif")
@@ -174,7 +185,7 @@ def reference(case, phi, max_sweeps):
                 new[(i, mid)] = oracles.percolation_value(g, m, phi, u)
         delta = max(abs(new[k] - H[k]) for k in H) if H else 0.0
         H = new
-        if delta < 1e-14:
+        if delta < 1e-10:
             conv = sweep
             break
     tot = 0.0
